@@ -106,6 +106,16 @@ def enumerate_cases(tier):
         for s in out[:3 if tier == "quick" else 12]:
             used = zoo_extra.spec_wires(s)
             yield {"expr": s, "order": list(reversed(used)) + ["zz"], "kind": "enum"}
+    # change_op_basis with an explicit uncompute and Pauli operands: the composite has a Pauli representation whose factor
+    # order matters (non-commuting compute / target / uncompute)
+    P = lambda n, w: {"op": n, "w": [w]}  # noqa: E731
+    PP = lambda a, b: {"op": "prod", "operands": [P(a, 0), P(b, 1)]}  # noqa: E731
+    for comp, tgt, unc in [(P("PauliX", 0), P("PauliY", 0), P("PauliZ", 0)), (P("PauliZ", 0), P("PauliX", 0), P("PauliX", 0)),
+                           (PP("PauliX", "PauliY"), PP("PauliZ", "PauliZ"), P("PauliY", 0)), (P("PauliY", 1), PP("PauliX", "PauliX"), PP("PauliZ", "PauliY")),
+                           (P("PauliX", 0), P("PauliZ", 0), None)]:
+        e = {"op": "cob", "compute": comp, "target": tgt, "uncompute": unc}
+        used = zoo_extra.spec_wires(e)
+        yield {"expr": e, "order": list(reversed(used)) + ["zz"], "kind": "enum"}
 
 
 def _close(A, B, tol=TOL):
